@@ -225,7 +225,15 @@ def run_conversations(cases):
                 msgs = server_messages(conv, state["r"], req["id"])
                 sent_log[state["r"]] = msgs
                 for m in msgs:
-                    stream.feed(("event: message\ndata: %s\n\n" % json.dumps(m, ensure_ascii=False, separators=(",", ":"))).encode())
+                    data = ("event: message\ndata: %s\n\n" % json.dumps(m, ensure_ascii=False, separators=(",", ":"))).encode()
+                    inside = [i for i in range(1, len(data)) if 0x80 <= data[i] <= 0xBF]
+                    if inside and state["r"] % 3 != 0:
+                        # the network delivers the event in two reads, the boundary inside a character
+                        cut = inside[(state["r"] * 7) % len(inside)]
+                        stream.feed(data[:cut])
+                        stream.feed(data[cut:])
+                    else:
+                        stream.feed(data)
                 if state["r"] % 2:
                     # a fast server: the answer is on the event stream before the 202 is back
                     await anyio.sleep(0.01)
